@@ -106,7 +106,8 @@ def decompress(comp, data, maxout):
 
 
 class Image:
-    def __init__(self, data, want_content=True, max_file_bytes=1 << 33):
+    def __init__(self, data, want_content=True, max_file_bytes=1 << 33, dev_block=4096):
+        self.dev_block = dev_block
         self.d = data
         self.violations = []
         self.notes = []
@@ -227,9 +228,9 @@ class Image:
         if sb["bytes_used"] > len(d):
             self.bad("super.bytes_used", "bytes_used %d > file size %d" % (sb["bytes_used"], len(d)))
             raise Corrupt("bytes_used beyond file")
-        if len(d) % 4096 != 0:
-            self.bad("super.padding", "file size %d is not a multiple of the 4 KiB device block size" % len(d))
-        if len(d) - sb["bytes_used"] >= 4096 and len(d) % 4096 == 0:
+        if len(d) % self.dev_block != 0:
+            self.bad("super.padding", "file size %d is not a multiple of the device block size %d" % (len(d), self.dev_block))
+        if len(d) - sb["bytes_used"] >= self.dev_block and len(d) % self.dev_block == 0:
             self.note("more than one device block of padding")
         if any(d[sb["bytes_used"]:]) :
             self.note("padding after bytes_used is not zero")
